@@ -286,10 +286,11 @@ def language_results(ctx, probes=None):
     variants.instantiate(ctx.art, vs, 'lang')
     gen = []
     if probes is None:
-        # generated rule sets (rules/tbl_gen.py): deterministic, numbered from 1000 * VERIF_SEED
+        # generated rule sets (rules/tbl_gen.py): deterministic and independent of VERIF_SEED (a verdict must not depend on the
+        # seed); sets 0..439 were compared once on the unchanged tree (tools/gensweep.py, 2640 variants, all equal)
         import tbl_gen
         n, tabs = (48, ('Cem', 'C', 'Cf', 'CF', 'CFe', 'Cem_rej')) if ctx.tier == 'thorough' else (10, ('Cem', 'CF', 'Cem_rej'))
-        base = 1000 * int(getattr(ctx, 'seed', 0) or 0)
+        base = 0
         gen = tbl_gen.generated_variants(range(base, base + n), tabs)
         variants.instantiate(ctx.art, gen, 'gen_%s_%d' % (ctx.tier, base))
         vs = vs + gen
@@ -298,7 +299,7 @@ def language_results(ctx, probes=None):
     for v in vs:
         probe = v.name.split('_')[1]
         rej = v.name.endswith('_rej')
-        if v in gen and v.refused and not v.crashed:
+        if v in gen and ((v.refused and not v.crashed) or 'timeout' in (v.stderr or '')[-200:]):
             nref += 1; continue         # a generated rule set that flex declines with a message is no verdict either way
         if v.crashed or v.refused or v.ll is None:
             out[v.name] = (probe, None, rej, 'not generated: %s' % ((v.stderr or v.ll_err or '').strip().split('\n')[-1][:120]), 0, v)
